@@ -14,7 +14,8 @@
 (*         sides: "slice", "transpose" ... mean what NumPy defines.           *)
 (* Part 2  Implementation-shaped transition Res(o, m, op): the class          *)
 (*         decisions as coded in unyt (ufunc wrap-up: shape () -> quantity,   *)
-(*         else array; __getitem__: 0-d -> quantity, else ndarray-native      *)
+(*         else array; __getitem__/squeeze/reshape: 0-d -> quantity, else     *)
+(*         ndarray-native                                                     *)
 (*         class preservation; handlers choosing by ndim; Unit.__mul__ by     *)
 (*         data.shape; unyt_quantity.reshape override; unyt_quantity.__new__  *)
 (*         size check), name propagation, and view/copy of every call (TMem). *)
@@ -232,6 +233,9 @@ NativeK(o) == o.k
 NdimK(sh) == IF sh = <<>> THEN "Q" ELSE "A"
 \* unyt_quantity.__new__ refuses size > 1 (also under bypass_validation)
 QRefuses(k, sh) == k = "Q" /\ Size(sh) > 1
+\* unyt_array.squeeze / reshape (_wrap_0d): a 0-d result is handed out as a quantity (a view, the parent's name and
+\* unit), anything else keeps the ndarray-native class
+Wrap0d(o, rsh) == IF rsh = <<>> THEN "Q" ELSE NativeK(o)
 
 \* shape NumPy reads back from nested lists: nothing can be nested below an empty list
 RECURSIVE ListShape(_)
@@ -261,12 +265,12 @@ Res(o, m, op) ==
          \* unyt_quantity.reshape: () -> ndarray.reshape; anything else -> unyt_array(self).reshape (name not passed on)
          LET cls == IF AP(m.offs) THEN "view" ELSE "copy" IN
          IF o.k = "Q" /\ op.t # <<>> THEN R("A", op.t, o.u, FALSE, cls, Same(o), 1)
-         ELSE R(NativeK(o), op.t, o.u, o.nm, cls, Same(o), 1)
+         ELSE R(Wrap0d(o, op.t), op.t, o.u, o.nm, cls, Same(o), 1)
     [] op.op \in TransOps -> R(NativeK(o), PermShape(o.sh, TransPerm(o, op)), o.u, o.nm, "view", PermLPos(o.sh, TransPerm(o, op)), 1)
     [] op.op = "ravel" -> R(NativeK(o), <<n>>, o.u, o.nm, IF Consecutive(m.offs) THEN "view" ELSE "copy", Same(o), 1)
     [] op.op = "flatten" -> R(NativeK(o), <<n>>, o.u, o.nm, "copy", Same(o), 1)
-    [] op.op \in {"squeeze", "np_squeeze"} -> R(NativeK(o), SqueezeShape(o.sh), o.u, o.nm, "view", Same(o), 1)
-    [] op.op = "squeeze_ax" -> R(NativeK(o), DropAxis(o.sh, op.a), o.u, o.nm, "view", Same(o), 1)
+    [] op.op \in {"squeeze", "np_squeeze"} -> R(Wrap0d(o, SqueezeShape(o.sh)), SqueezeShape(o.sh), o.u, o.nm, "view", Same(o), 1)
+    [] op.op = "squeeze_ax" -> R(Wrap0d(o, DropAxis(o.sh, op.a)), DropAxis(o.sh, op.a), o.u, o.nm, "view", Same(o), 1)
     [] op.op = "expand_dims" ->   \* np.expand_dims -> a.reshape(...)
          IF o.k = "Q" THEN R("A", InsertAxis(o.sh, op.a), o.u, FALSE, "view", Same(o), 1)
          ELSE R("A", InsertAxis(o.sh, op.a), o.u, o.nm, "view", Same(o), 1)
@@ -288,9 +292,9 @@ Res(o, m, op) ==
     [] op.op = "copy" -> IF QRefuses(o.k, o.sh) THEN RExc ELSE R(NativeK(o), o.sh, o.u, o.nm, "copy", Same(o), 1)
     [] op.op = "ctor_a_from" -> R("A", o.sh, o.u, FALSE, "view", Same(o), 1)
     [] op.op \in ConvertOps -> IF QRefuses(o.k, o.sh) THEN RExc ELSE R(NativeK(o), o.sh, op.s, o.nm, "copy", Same(o), Factor(o.u, op.s))
-    [] op.op \in BaseOps ->       \* type(self)(self.v * conv, to_units): the name is not passed on (the self.copy() shortcut is EM-only)
+    [] op.op \in BaseOps ->       \* outside the electromagnetic branch: self.in_units(base equivalent) - class and name as in_units
          IF QRefuses(o.k, o.sh) THEN RExc
-         ELSE R(NativeK(o), o.sh, BaseTarget(op.op), FALSE, "copy", Same(o), Factor(o.u, BaseTarget(op.op)))
+         ELSE R(NativeK(o), o.sh, BaseTarget(op.op), o.nm, "copy", Same(o), Factor(o.u, BaseTarget(op.op)))
     [] op.op = "red" ->
          LET rsh == RedShape(o.sh, op.a, op.b = 1) IN
          IF op.s \in EmptyRaises /\ RedCount(o.sh, op.a) = 0 THEN RExc   \* no identity: ValueError
@@ -308,7 +312,7 @@ Res(o, m, op) ==
          CASE op.s \in {"take_i", "m_take_i"} -> R(NdimK(<<>>), <<>>, o.u, FALSE, "copy", <<>>, 0)
            [] op.s = "take_l" -> R(NdimK(<<2>>), <<2>>, o.u, FALSE, "copy", <<>>, 0)
            [] op.s \in {"dot", "np_dot"} -> R(NdimK(<<>>), <<>>, o.u \o "**2", FALSE, "copy", <<>>, 0)
-           [] op.s = "einsum" -> R(NdimK(<<>>), <<>>, o.u, FALSE, "copy", <<>>, 0)   \* (the handler returns the first operand's unit)
+           [] op.s = "einsum" -> R(NdimK(<<>>), <<>>, o.u \o "**2", FALSE, "copy", <<>>, 0)   \* product of the operands' units (fix 7030a26)
            [] op.s = "concat" -> R("A", <<2 * o.sh[1]>> \o Tail(o.sh), o.u, FALSE, "copy", <<>>, 0)
            [] op.s = "stack" -> R("A", <<2>> \o o.sh, o.u, FALSE, "copy", <<>>, 0)
            [] op.s = "norm" -> R("Q", <<>>, o.u, FALSE, "copy", <<>>, 0)
